@@ -77,6 +77,7 @@ type Run struct {
 	LoopBound   int
 	ReplayVals  []uint64
 	Prop        string
+	Relabel     map[string]string // label prefix (e.g. C01) -> prefix reported instead (harness directive relabel)
 	OnEnd       func(e End)
 	stopAll     bool
 }
